@@ -88,11 +88,15 @@ func render(pl plug, calls []call, reserve bool) map[string]string {
 			// one clone function per type: the same name for the same type is not a clash
 			x = "deriveCloneOf" + c.typ + "(x)"
 		}
+		ptr := "*"
+		if universe == 2 {
+			ptr = "" // by value: minted names are taken from the name of a named first argument
+		}
 		switch pl.name {
 		case "equal":
-			fmt.Fprintf(&srcs[c.file], "func f%d(x, y *%s) bool {\n\treturn %s(%s, y)\n}\n\n", i, tn(c.typ), c.name, x)
+			fmt.Fprintf(&srcs[c.file], "func f%d(x, y %s%s) bool {\n\treturn %s(%s, y)\n}\n\n", i, ptr, tn(c.typ), c.name, x)
 		case "hash":
-			fmt.Fprintf(&srcs[c.file], "func f%d(x *%s) uint64 {\n\treturn %s(%s)\n}\n\n", i, tn(c.typ), c.name, x)
+			fmt.Fprintf(&srcs[c.file], "func f%d(x %s%s) uint64 {\n\treturn %s(%s)\n}\n\n", i, ptr, tn(c.typ), c.name, x)
 		case "keys":
 			fmt.Fprintf(&srcs[c.file], "func f%d(x map[%s]int) []%s {\n\treturn %s(%s)\n}\n\n", i, c.typ2(), c.typ2(), c.name, x)
 		}
